@@ -18,7 +18,7 @@ var keyUniverse = []string{
 }
 
 var allSites = []string{"seq.commit", "seq.cache", "seq.bcast", "watch.subscribed", "watch.cacheread", "hub.recv",
-	"kv.get", "kv.get.ret", "kv.iter", "kv.commit", "kv.commit.ret", "kv.tso", "kv.parts", "kv.del", "kv.del.ret", "kv.delcur", "kv.delcur.ret"}
+	"kv.get", "kv.get.ret", "kv.commit", "kv.commit.ret", "kv.parts", "kv.del", "kv.del.ret", "kv.delcur", "kv.delcur.ret"}
 
 // swarmSites deactivates a random subset of optional yield sites.
 func swarmSites(r *rt.Rand, keep ...string) []string {
